@@ -219,7 +219,9 @@ def open_bytes(token: bytes, key: bytes, *, aad: bytes, version: int = 1) -> byt
 
     """
     if len(token) < _MIN_TOKEN_LEN or token[0] != version:
-        msg = "malformed or wrong-version token"
+        # Same text as a failed tag check: SealError promises that callers
+        # cannot tell the failure modes apart by type or message.
+        msg = "token verification failed"
         raise SealError(msg)
     nonce = token[_VERSION_LEN : _VERSION_LEN + _NONCE_LEN]
     body = token[_VERSION_LEN + _NONCE_LEN :]
